@@ -360,7 +360,8 @@ def split_whitespace(s):
 
 
 def compact(chars, keep):
-    """stable filter: the kept chars in order, (n, chars)"""
+    """stable filter: the kept chars in order.  out[j] = OR_k [keep_k and #kept before k == j] * c_k
+    (a flat two-level selection: at most one k is selected per j)"""
     cap = len(chars)
     pos = []
     cnt = L(0)
@@ -371,7 +372,8 @@ def compact(chars, keep):
     for j in range(cap):
         acc = Z8
         for k in range(j, cap):
-            acc = Ite(And(keep[k], Eq(pos[k], L(j))), chars[k], acc)
+            sel = And(keep[k], Eq(pos[k], L(j)))
+            acc = BvOr(acc, Ite(sel, chars[k], Z8))
         out.append(acc)
     return BStr(cnt, out).tight()
 
